@@ -8,6 +8,10 @@ export PIP_NO_INDEX=1
 if ! "$PY" -c "import hypothesis" 2>/dev/null; then
   "$PY" -m pip install --no-index --find-links /opt/veriftools/wheels --target .deps hypothesis || exit 1
 fi
+# optional: atheris for the coverage-guided legs of C18 / C20 (they yield no inputs without it)
+if ! PYTHONPATH=.deps "$PY" -c "import atheris" 2>/dev/null; then
+  "$PY" -m pip install --no-index --find-links /opt/veriftools/wheels --target .deps atheris >/dev/null 2>&1 || true
+fi
 PYTHONPATH=.deps "$PY" - <<'PY' || exit 1
 import hypothesis, lxml, bs4, cssutils
 import sys
